@@ -383,6 +383,19 @@ def gen_program(g, prof):
                                                           g.choice([["forever"], ["sleep", 5], ["wait", "e0"]])]],
                                            ["yield", 1]]],
                 g.choice([["yield", g.int(1, 3)], ["wait", "e1"]])]]] + main
+        elif which == "native_cancel_after_prestart_failure":
+            # the started task fails before started(); the caller of start() is cancelled natively in the cycles in
+            # which that exception is on its way to it
+            gg, cc, cx = new("g"), new("c"), new("c")
+            st["names"] += [gg, cc, cx]
+            st["groups"].append(gg)
+            st["children"] += [cc, cx]
+            k = g.int(0, 3)
+            spec = {"pre": k, "act": g.choice(["raise", "raise", "return"]), "v": g.int(0, 9), "oncancel": "reraise",
+                    "cleanup": 0, "shielded": False}
+            ext += [[k + g.int(3, 7), "native", cc]]
+            main = [["group", gg, [["spawn", gg, cc, "soon", [["start", gg, cx, spec], ["yield", 1]]],
+                                   g.choice([["yield", g.int(1, 2)], ["wait", "e1"]])]]] + main
         elif which == "sibling_double_cancel":
             a, b, gg, c1, c2 = new("s"), new("s"), new("g"), new("c"), new("c")
             st["names"] += [a, b, gg, c1, c2]
